@@ -121,7 +121,15 @@ def run(ctx):
     if len(names) < 5:
         raise Broken("the harness no longer lists its directed scenarios", out[-500:])
     hists = names + ["random:%d" % (ctx.seed * 1000 + k) for k in range(3 if ctx.tier != "thorough" else 12)]
-    with c18run.cf.ThreadPoolExecutor(max_workers=8) as ex:
+    # a configuration-update proposal for every option key with hostile and ordinary values, taken through funding,
+    # voting and finalisation, followed by ordinary traffic of the governed subsystems
+    cfg_vals = ["0", "-1", "1", "100000000000000000000000000000000000000"] + (["2", "64", "3000000"] if ctx.tier == "thorough" else [])
+    rc2, out2 = sh([vh, "scenario", "-cfgkeys"], timeout=60)
+    cfg_keys = [x for x in out2.split() if "." in x] if rc2 == 0 else []
+    if len(cfg_keys) < 10:
+        raise Broken("the harness no longer lists the configuration-update keys", out2[-500:])
+    hists += ["cfg:%s:%s" % (k, v) for k in cfg_keys for v in cfg_vals]
+    with c18run.cf.ThreadPoolExecutor(max_workers=12) as ex:
         hres = list(ex.map(lambda nm: (nm, c18run.run_history(vh, nm)), hists))
     hbad = [(nm, r) for nm, r in hres if r is not None]
     for nm, (blk, what) in hbad[:3]:
